@@ -399,6 +399,12 @@ def check_collinear(case, R):
                 if okk:
                     R.check(abs(float(np.asarray(f1)[0]) - want[1]) <= REL12 * want[1] + 1e-12, "feature:volume",
                             lambda: f"{label}: extract_feature(t).get('volume', accuracy=1) = {f1!r}, sum of spheres {want[1]!r}", "feature:volume:kwargs")
+            # every node typed soma (a three-point soma is three spheres and two frusta like any other root with two arms)
+            if n <= 3 and perm is None:
+                t_soma = build.make_tree(g["tp"], xyz=g["txyz"], r=g["tr"], types=[1] * n)
+                for acc in (1, 2, 3, 4):
+                    rng.reset()
+                    call_volume(R, rng, t_soma, g, want, acc, label + " [all nodes typed soma]")
             # ONE extractor object asked for several levels in turn (and for the first again): each answer is that level's volume
             okx, fe = R.impl("extract_feature", extract_feature, t)
             if okx:
@@ -668,14 +674,22 @@ def check_general(case, R):
     n = len(p)
     if n < 2:
         R.trivial()
-    if geo == "lattice":
+    types = None
+    if geo == "soma3":
+        # the "three-point soma" of standardised files: centre + two samples one radius away on opposite sides, all typed soma, same
+        # radius (+ neurites leaving the centre): by the statement three spheres and two frusta like any other nodes
+        rs_ = 2.5
+        xyz = [(1.0, 2.0, 3.0), (1.0, 2.0 - rs_, 3.0), (1.0, 2.0 + rs_, 3.0), (7.0, 3.0, 1.0), (9.5, 4.0, 0.0)][:n]
+        r = [rs_, rs_, rs_, 0.5, 0.25][:n]
+        types = [1, 1, 1, 3, 3][:n]
+    elif geo == "lattice":
         xyz, r = lattice_geometry(n)
     else:
         xyz, r = build.generic_geometry(n, int(geo))
     xyz = [tuple(build.f32(c) for c in q) for q in xyz]
     r = [build.f32(x) for x in r]
     R.state(p, geo)
-    t = build.make_tree(p, xyz=xyz, r=r)
+    t = build.make_tree(p, xyz=xyz, r=r, types=types)
     snap = build.snapshot(t)
     edges = ref.edges(p)
     w1, w2 = RV.level1(r), RV.level2(xyz, r, edges)
@@ -689,6 +703,27 @@ def check_general(case, R):
                 R.check(math.isfinite(val) and abs(val - want) <= REL12 * want + 1e-12, kind_,
                         lambda: f"{kind} p={p} geometry={geo}: accuracy={acc} -> {val!r}, want {want!r}")
     R.check(build.snapshot(t) == snap, "input-modified", lambda: f"p={p}")
+    # measured, then RE-PARENTED IN PLACE (every admissible single edit, through the node handle / the column / on a copy), then measured
+    # again: levels 1 and 2 are sums over the CURRENT nodes and parent-child pairs; and the same for every node typed soma (type is
+    # not part of the statement: a soma-typed root with soma-typed children is a tree like any other)
+    if geo not in ("lattice", "soma3") and kind == "ST" and 2 <= n <= 5:
+        with OwnedRNG((1.0, 0.0, 0.0), 1, []):
+            for (i, j) in build.reparent_edits(p):
+                for how in build.EDIT_HOWS:
+                    t_ = build.make_tree(p, xyz=xyz, r=r)
+                    obj, q, other, other_p = build.apply_reparent(t_, p, (i, j, how), lambda x: (get_volume(x, accuracy=2), x.get_branches(), x.length()))
+                    for o_, q_ in ((obj, q),) + (((other, other_p),) if other is not None else ()):
+                        want2 = RV.level2(xyz, r, ref.edges(q_))
+                        ok, val = R.impl("get_volume[2] after an in-place re-parenting", lambda: get_volume(o_, accuracy=2))
+                        if ok:
+                            R.check(abs(float(val) - want2) <= REL12 * want2 + 1e-12, "level2:spheres+frusta",
+                                    lambda: f"p={p} -> {q_} (node {i} re-parented to {j}, {how}): accuracy=2 -> {float(val)!r}, want {want2!r}", "level2:after-reparenting")
+            t_s = build.make_tree(p, xyz=xyz, r=r, types=[1] * n)
+            for acc, want, kind_ in ((1, w1, "level1:sum-of-spheres"), (2, w2, "level2:spheres+frusta")):
+                ok, val = R.impl(f"get_volume[{acc}] all nodes typed soma", lambda: get_volume(t_s, accuracy=acc))
+                if ok:
+                    R.check(abs(float(val) - want) <= REL12 * want + 1e-12, kind_, lambda: f"p={p} all nodes typed soma: accuracy={acc} -> {float(val)!r}, want {want!r}",
+                            kind_ + ":soma-typed-nodes")
 
 
 # ------------------------------------------------------------------ spaces
@@ -714,6 +749,8 @@ def spaces(tier, seed):
         e_orients = lambda n: (0, 2) if n <= 2 else (2,)  # noqa: E731
 
     def gen_general():
+        for p in ([-1, 0, 0], [-1, 0, 0, 0], [-1, 0, 0, 0, 3]):
+            yield ("ST", p, "soma3")
         for n in range(1, st_hi + 1):
             for p in S.sorted_trees(n):
                 for b in banks:
